@@ -46,7 +46,11 @@ pub fn path_of_uri(uri: &str) -> String {
 
 impl LspSession {
     pub fn start(root: Option<&str>, envs: &[(&str, &str)]) -> Result<LspSession, LspErr> {
-        let mut cmd = Command::new(SERVER_BIN);
+        Self::start_bin(SERVER_BIN, root, envs)
+    }
+
+    pub fn start_bin(bin: &str, root: Option<&str>, envs: &[(&str, &str)]) -> Result<LspSession, LspErr> {
+        let mut cmd = Command::new(bin);
         cmd.stdin(Stdio::piped()).stdout(Stdio::piped()).stderr(Stdio::piped());
         cmd.env("RUST_LOG", "error").env_remove("VIRTUAL_ENV");
         for (k, v) in envs {
